@@ -372,8 +372,32 @@ def havoc_paths(ip: Interp, env: dict, paths: list[str], hint: str):
             set_(new)
 
 
+def _raw_binding(c: Contract, recv, args, kwargs):
+    """parameter -> argument as given (no coercion, no obligations); missing ones get their default or _MISSING"""
+    names = list(c.sig)
+    vals = list(args)
+    if recv is not None and names and names[0] == 'self':
+        vals = [recv, *vals]
+    raw = {}
+    for i, name in enumerate(names):
+        if i < len(vals):
+            raw[name] = vals[i]
+        elif name in kwargs:
+            raw[name] = kwargs[name]
+        else:
+            raw[name] = c.defaults.get(name, _MISSING)
+    return raw
+
+
 def pick_variant(ip: Interp, vs: VariantSet, recv, args, kwargs, n) -> Contract:
     for c in vs.variants:
+        # decide on the arguments as given: coercing them first would emit type obligations for variants that do not apply
+        raw = _raw_binding(c, recv, args, kwargs)
+        if any((sortname.strip() == 'None') != (raw.get(name) is None)
+               for name, sortname in c.sig.items()
+               if raw.get(name) is not _MISSING and (sortname.strip() == 'None' or raw.get(name) is None)
+               and not sortname.strip().startswith(('Val', 'any'))):
+            continue
         try:
             env = bind_params(ip, c, recv, args, kwargs, n)
         except OutOfSubset:
